@@ -70,6 +70,19 @@ CLAIMS = {
   COMMON_NOTE + "Singular supplied bases (library repairs them) are counted, not compared. The LU solve inside the verdict functions is tied by observation only (see C13). "
   "QSexact_verify is exercised only through its exact fallback.",
   "DESIGN.md C12", "Lean 4 proof over a model of the basis verdicts + model/implementation correspondence check"),
+ "C13": ("proof",
+  "Partial by nature: factor.c (Markowitz LU, dense tail, Forrest-Tomlin updates) is not modelled. Proved in Lean, for every dimension and every column-replacement "
+  "history, is what passing the multiplication checks means: inverse rows that pass r_i B = e_i determine and make unique every forward solve; a kernel certificate excludes "
+  "a full set of inverse rows (a singular matrix cannot pass as solved); a replacement with spike entry 0 yields a singular matrix (explicit kernel vector) and one with a "
+  "non-zero spike entry keeps it invertible (product-form update); tableau rows that pass t = r [A|I] read delta on the basic columns and hold as equations on every solution "
+  "of the rows. Tied to /repo: mpq_ILLfactor/_ftran/_btran/_ftran_update/_update driven directly (exhaustive 2x2 and a slice of 3x3 small-integer matrices; triangular, "
+  "dense-block, singleton, arrow, cancellation-prone nucleus+row-singleton, near-singular and exactly singular structured matrices up to dimension ~30 quick / 130 thorough; "
+  "replacement sequences up to 125 updates and with small eta limits forcing refactorization, singular replacements) with every output multiplied back against the dense matrix "
+  "after the history so far and singular <=> reported singular; QSget_binv_row/_tableau_row/_basis_order after primal/dual solves, pivot-in sequences and 450-step pivot-in walks "
+  "with re-optimisation (eta file filled). Small cases are replayed through the Lean checkers.",
+  COMMON_NOTE + "Runs stopped by an iteration limit expose no basis inverse through the API (no cache), so 'arbitrary iteration counts' is covered through pivot-in walks instead. "
+  "E_UPDATE_NOSPACE/blow-up paths only if the histories reach them (see evidence distribution).",
+  "DESIGN.md C13", "Lean 4 proof of the solve contracts (multiplication checkers) + model/implementation correspondence check"),
  "C03": ("proof",
   "Partial by nature. Proved in Lean: soundness of the three certificate checkers (optimality, Farkas, unbounded ray), mutual exclusivity of the three "
   "classes and uniqueness of the certified value - so the 'mathematical truth' of an LP is well defined by whichever certificate exists - and the "
